@@ -584,7 +584,7 @@ GROUPS = [
     Group('staticInitialize', 'h_staticInitialize', enforce='Position_staticInitialize', min_props=5),
     Group('makeMove', 'h_makeMove', enforce='Position_makeMove', replace=_MUT + _NN, min_props=30, timeout=3000),
     Group('make_unmake', 'h_make_unmake', replace=_MUT + _NN + ('BitBoard_firstSquare',), min_props=30, timeout=3000, tier='thorough'),
-    Group('make_unmake_split', 'h_make_unmake', replace=_MUT + _NN + ('BitBoard_firstSquare',), min_props=30, timeout=3000, tier='thorough',
+    Group('make_unmake_split', 'h_make_unmake', replace=_MUT + _NN + ('BitBoard_firstSquare',), min_props=30, timeout=3000,   # quick tier: 6 cases of 7-8 min in parallel
           cases=('case', [('CASE_MU=%d' % k,) for k in range(6)])),
     Group('fold_lemma', 'h_fold_lemma', cases=('KK', list(range(64))), min_props=4, timeout=900, unwind=65),
     Group('serialize', 'h_serialize', enforce='Position_serialize', min_props=5),
@@ -613,7 +613,7 @@ MUTANTS = [
     dict(name='makeMove_fullmove_white', file='lib/texellib/position.cpp', pattern=r'    if \(!wtm\)\n        fullMoveCounter\+\+;\n    whiteMove = !wtm;', repl='    if (wtm)\n        fullMoveCounter++;\n    whiteMove = !wtm;', groups=['makeMove']),
     dict(name='makeMove_ep_black_capture_square', file='lib/texellib/position.cpp', pattern=r'                clearPiece\(move.to\(\) \+ 8\);', repl='                clearPiece(move.to() + 8 - 16 * (move.to().getX() == 7));', groups=['makeMove']),
     dict(name='castleSqMask_h8', file='lib/texellib/position.cpp', pattern=r'castleSqMask\[H8\] &= ~\(1 << H8_CASTLE\);', repl='castleSqMask[H8] &= ~(1 << A8_CASTLE);', groups=['staticInitialize']),
-    dict(name='unMakeMove_promotion_colour', file='lib/texellib/position.cpp', pattern=r'        p = wtm \? Piece::WPAWN : Piece::BPAWN;\n        setPiece\(move.from\(\), p\);', repl='        p = wtm ? Piece::WPAWN : Piece::WPAWN;\n        setPiece(move.from(), p);', groups=['make_unmake']),
+    dict(name='unMakeMove_promotion_colour', file='lib/texellib/position.cpp', pattern=r'        p = wtm \? Piece::WPAWN : Piece::BPAWN;\n        setPiece\(move.from\(\), p\);', repl='        p = wtm ? Piece::WPAWN : Piece::WPAWN;\n        setPiece(move.from(), p);', groups=['make_unmake_split']),
     dict(name='serialize_ep_bits', file='lib/texellib/position.cpp', pattern=r'flags = \(flags << 8\) \| \(epSquare.asInt\(\) & 0xff\);', repl='flags = (flags << 8) | (epSquare.asInt() & 0x3f);', groups=['serialize']),
     dict(name='matid_signed_again', file='lib/texellib/material.hpp', pattern=r'hash = \(int\)\(\(unsigned int\)hash \+ \(unsigned int\)materialId\[pType\]\);', repl='hash += materialId[pType];', groups=['MatId_addPiece']),
 ]
